@@ -346,7 +346,7 @@ class bptk():
 
 
     def begin_session(self, scenarios, scenario_managers, settings={},agents=[], agent_states=[], agent_properties=[],
-                       agent_property_types=[], individual_agent_properties=[], equations=[],starttime=0.0, dt=1.0):
+                       agent_property_types=[], individual_agent_properties=[], equations=[],starttime=None, dt=None):
         """Begins a session to allow stepwise simulation.
 
         This resets the internal session cache, there can only be one session at any time.
@@ -374,10 +374,10 @@ class bptk():
                 List of individual agent properties
             equations: list.
                 Names of equations to plot (System Dynamics).
-            starttime: Float (Default=0.0)
-                Timestep at which to start.
-            dt: Dt (Default=1.0)
-                Deltatime.
+            starttime: Float (Default=None)
+                Timestep at which to start. If not given, the session starts at the start time of the scenarios.
+            dt: Dt (Default=None)
+                Deltatime. If not given, the session advances with the dt of the scenarios.
 
         """
         self.session_state = None
@@ -438,9 +438,16 @@ class bptk():
                         if manager.name in settings:
                             if scenario in settings[manager.name]:
                                 scenario_object.configure_settings(settings[manager.name][scenario])
-                        starttime_ = max(starttime_, scenario_object.starttime)
+                        starttime_ = scenario_object.starttime if starttime_ is None else max(starttime_, scenario_object.starttime)
+                        if dt is None:
+                            dt = scenario_object.dt
                         stoptime_ = min(stoptime_,scenario_object.stoptime) if stoptime_ is not None else scenario_object.stoptime
                         self.reset_scenario_cache(scenario_manager=manager.name, scenario=scenario)
+
+        if starttime_ is None:
+            starttime_ = 0.0
+        if dt is None:
+            dt = 1.0
 
         self.session_state = {
             "scenarios": scenarios,
